@@ -122,7 +122,9 @@ func (m *c16Interp) exec(c c16Cmd) int {
 		switch {
 		case err == nil:
 			return rOk
-		case strings.Contains(m.out.String(), "loaded "):
+		case strings.HasPrefix(err.Error(), "evaluation failed") || strings.Contains(m.out.String(), "loaded "):
+			// analysis passed, evaluation failed (a tree before fix N32 printed "loaded" first
+			// and returned the bare error)
 			return rEval
 		case errors.Is(err, fs.ErrNotExist) || strings.HasPrefix(err.Error(), "error parsing"):
 			return rParse
@@ -254,7 +256,7 @@ func (t *tabs) record(f *fresh, c c16Cmd, res int, universe []string) {
 	prog, seen := t.akeys[ak]
 	after := f.m.observe(universe)
 	decls := f.keyKnown(jkey(src))
-	if res == rOk || (res == rEval && c.Op == "load") {
+	if res == rOk { // a rejected define / load pushes nothing: what its program declares is never seen
 		have := map[string]bool{}
 		for _, d := range f.baseKnown {
 			have[d.Name] = true
@@ -282,7 +284,7 @@ func (t *tabs) record(f *fresh, c c16Cmd, res int, universe []string) {
 	if !t.ekeys[ek] {
 		t.ekeys[ek] = true
 		facts := [][2]string{}
-		if res == rOk || c.Op == "load" {
+		if res == rOk {
 			facts = minus(visibleOf(after), f.baseVisible)
 		}
 		t.out.ETab = append(t.out.ETab, c16E{prog, f.baseVisible, facts, res == rOk})
@@ -301,7 +303,7 @@ func (f *fresh) apply(t *tabs, c c16Cmd, universe []string) int {
 	case "load":
 		t.record(f, c, res, universe)
 		f.chunks = nil
-		if res == rOk || res == rEval {
+		if res == rOk {
 			o := f.m.observe(universe)
 			have := map[string]bool{}
 			for _, d := range f.baseKnown {
@@ -381,7 +383,7 @@ func runC16(in json.RawMessage) (any, error) {
 		case "load":
 			fres = f.apply(t, c, cs.Universe)
 			next = stripDefs(cs, live)
-			if res == rOk || res == rEval {
+			if res == rOk { // only a load that succeeded is live (fix N32)
 				next = append(next, k)
 				keep = fres == res && !hasInter
 			}
